@@ -178,3 +178,8 @@ func Or(a, b bool) bool                 { return a || b }
 func Not(a bool) bool                   { return !a }
 func Implies(a, b bool) bool            { return !a || b }
 func B2I(b bool) int                    { if b { return 1 }; return 0 }
+
+// PickStr / PickInt select by index; the engine keeps the selection symbolic
+// (a per-byte if-then-else term) when the alternatives have equal length.
+func PickStr(idx int, alts ...string) string { return alts[idx] }
+func PickInt(idx int, alts ...int) int       { return alts[idx] }
